@@ -159,6 +159,7 @@ type Thread struct {
 	Fn       func()
 	Steps    int
 	WasBlocked bool
+	pendingRelease bool
 }
 
 // Picker chooses the index of the next thread among the runnable ones.
@@ -242,6 +243,13 @@ func (s *Sched) drain() bool {
 	var m [2]byte
 	for rawReadNonblock(s.toSched.r, m[:]) {
 		th := s.Threads[m[0]]
+		if th.pendingRelease {
+			// it was seen blocked and has now reached a yield point or finished:
+			// counted here, at the one place every released thread passes, so
+			// that the count does not depend on when the scheduler looked
+			th.pendingRelease = false
+			s.Released++
+		}
 		switch m[1] {
 		case 'S', 'Y':
 			th.state = stParked
@@ -286,12 +294,14 @@ func (s *Sched) waitQuiescent() bool {
 					if blockedStates[st] {
 						th.state = stBlocked
 						th.WasBlocked = true
-						s.BlockedEvents++
+						if !th.pendingRelease {
+							th.pendingRelease = true
+							s.BlockedEvents++
+						}
 					}
 				case stBlocked:
 					if !blockedStates[st] {
 						th.state = stRunning
-						s.Released++
 					}
 				}
 			}
